@@ -57,11 +57,18 @@ Definition axis_nodes (d : doc) (a : axis) (i : nat) : list nat :=
   | Namespace => filter (fun j => (kind_of d j =? 2)%Z && match parent_of d j with Some p => p =? i | None => false end) (indices d)
   end.
 
-(* the context iterators of the pinned code (xpath_context.py 549-593) deviate on three axes (known finding
-   C01-following-preceding-from-non-element): iter_followings only serves element context nodes, and
-   iter_preceding from an attribute / namespace node never meets the node among the descendants of the root, so it
-   yields every non-ancestor content node of the document *)
+(* the context iterators of the code (xpath_context.py iter_siblings / iter_preceding / iter_followings): after the
+   repairs they deviate from the XDM only for following:: from an attribute or a namespace node, which selects nothing
+   (known finding C01-following-from-attribute-or-namespace; tests/test_xpath_context.py test_iter_following asserts it) *)
 Definition axis_nodes_impl (d : doc) (a : axis) (i : nat) : list nat :=
+  match a with
+  | Following => if is_attr_or_ns d i then [] else axis_nodes d a i
+  | _ => axis_nodes d a i
+  end.
+(* the iterators before the repairs: iter_followings only served element context nodes, iter_preceding from an
+   attribute / namespace node never met the node among the descendants of the root (it yielded every non-ancestor
+   content node), iter_siblings likewise yielded every child of the owner element for preceding-sibling:: *)
+Definition axis_nodes_old (d : doc) (a : axis) (i : nat) : list nat :=
   match a with
   | Following => if (kind_of d i =? 1)%Z then axis_nodes d a i else []
   | Preceding => if is_attr_or_ns d i
@@ -69,7 +76,6 @@ Definition axis_nodes_impl (d : doc) (a : axis) (i : nat) : list nat :=
                        then filter (fun j => negb (is_attr_or_ns d j) && negb (is_ancestor d j i)) (indices d) else [])
                  else axis_nodes d a i
   | PrecedingSibling =>
-      (* iter_siblings never meets an attribute / namespace node among its parent's children: yields them all *)
       if is_attr_or_ns d i
       then match parent_of d i with
            | Some q => filter (fun j => negb (is_attr_or_ns d j) && match parent_of d j with Some p => p =? q | None => false end) (indices d)
